@@ -36,6 +36,27 @@ RegularRegs(cfg, pats, ptr, zeros) ==
   \o Concat([i \in DOMAIN cfg |-> IF cfg[i].bcast = 1
                 THEN << <<Letters[i] \o "_broadcast", IF \E j \in 1..cfg[i].nspat : pats[i].ss[j] = 0 THEN 1 ELSE 0>> >> ELSE <<>>], Len(cfg))
 
+(* xDMA (DmaExt) register file: all pointers first; then per streamer its strides, bounds, the channel enable word, the byte enable word
+   (option), the extension select ("bypass") word and the CSR group of every extension in option order.
+   st.exts[k] = [name, len, active, vals]: bit k-1 of the select word belongs to the k-th EXTENSION of the streamer (plain options take no
+   bit), it is set exactly for the extension that executes the region's kernel, whose CSR group then carries the kernel's parameters
+   (vals, by meaning); the groups of all other extensions are zero. *)
+RECURSIVE SelectWord(_, _)
+SelectWord(exts, k) == IF k > Len(exts) THEN 0 ELSE (IF exts[k].active = 1 THEN 2 ^ (k - 1) ELSE 0) + SelectWord(exts, k + 1)
+ExtRegs(l, ext) == [j \in 1..ext.len |-> <<l \o "_" \o ext.name \o "_" \o ToString(j - 1), IF ext.active = 1 THEN ext.vals[j] ELSE 0>>]
+XdmaStreamerRegs(i, st, pat, zero) ==
+  LET l == Letters[i]  nt == Len(st.temp)  ts == Pad(pat.ts, nt, 0) IN
+  [j \in 1..st.nspat |-> <<l \o "_sstride_" \o ToString(j - 1), pat.ss[j]>>]
+  \o [d \in 1..nt |-> <<l \o "_bound_" \o ToString(d - 1), Bound(st, pat, d)>>]
+  \o [d \in 1..nt |-> <<l \o "_tstride_" \o ToString(d - 1), ts[d]>>]
+  \o << <<l \o "_enabled_chan", IF zero THEN 0 ELSE -1>> >>
+  \o (IF st.bytemask = 1 THEN << <<l \o "_enabled_byte", IF zero THEN 0 ELSE -1>> >> ELSE <<>>)
+  \o << <<l \o "_bypass", SelectWord(st.exts, 1)>> >>
+  \o Concat([k \in DOMAIN st.exts |-> ExtRegs(l, st.exts[k])], Len(st.exts))
+XdmaRegs(cfg, pats, ptr, zeros) ==
+  Concat([i \in DOMAIN cfg |-> << <<Letters[i] \o "_ptr_low", IF zeros[i] = 1 THEN ZeroAddr ELSE ptr[i]>>, <<Letters[i] \o "_ptr_high", 0>> >>], Len(cfg))
+  \o Concat([i \in DOMAIN cfg |-> XdmaStreamerRegs(i, cfg[i], pats[i], zeros[i] = 1)], Len(cfg))
+
 Names(regs) == [k \in DOMAIN regs |-> regs[k][1]]
 Values(regs) == [k \in DOMAIN regs |-> regs[k][2]]
 
